@@ -3,8 +3,9 @@
 
 * rounds 2 and 3 are taken from the staging area seeded_pending/<prop>r<k>/<n>/ when my confirmation run accepted them (confirm.log);
 * for every kept change `detection.own_property_check` comes from the LAST sweep of own-property checks against the final machinery
-  (seeded_pending/detect_own.log, written by checklib/run_own_checks.py), `other_checks_that_fired` from the full sweeps of the round the
-  change belongs to (detect.log / detect_r2.log / detect_r3.log: all fast checks + the own slow one, with the machinery of that time).
+  (seeded_pending/detect_own.log, written by checklib/run_own_checks.py), `other_checks_that_fired` and `own_property_check_when_first_run` from the sweep made when the
+  round arrived (detect.log / detect_r2.log / detect_r3.log: all fast checks + the own slow one; detect_own_r4.log / detect_own_r5.log:
+  the own check only), with the machinery of that time.
 """
 import json, os, re, shutil, subprocess, glob
 V = "/verif"
@@ -40,7 +41,7 @@ for l in open(os.path.join(pend, "confirm.log")):
         confirm[f[0]] = l.strip()
 own_log = parse_log(os.path.join(pend, "detect_own.log"))
 full = {}
-for fn in ("detect.log", "detect_r2.log", "detect_r3.log"):
+for fn in ("detect.log", "detect_r2.log", "detect_r3.log", "detect_own_r4.log", "detect_own_r5.log"):
     full.update(parse_log(os.path.join(pend, fn)))
 
 
@@ -63,7 +64,7 @@ def own_verdict(entry):
 
 kept = []
 # rounds 2 and 3 from the staging area
-for d in sorted(glob.glob(os.path.join(pend, "C*r[23]", "[0-9]"))):
+for d in sorted(glob.glob(os.path.join(pend, "C*r[2345]", "[0-9]"))):
     prop, n = d.split("/")[-2], d.split("/")[-1]
     key = f"{prop}_{n}"
     c = confirm.get(key, "")
